@@ -139,6 +139,25 @@ class Line:
         for u in self.units:
             u.calc_position(k / 1024.0)
 
+    def parse_byte(self, b):
+        """one call of the real System.parse, classified as ListenHandler._handle sees it:
+        ('F',) False | ('T',) True | ('R', [bytes]) a reply | ('V',) ValueError | ('E', text)"""
+        try:
+            r = self.sys.parse(chr(b))
+        except WouldBlock:
+            return ('B',)
+        except ValueError:
+            return ('V',)
+        except Exception as ex:   # noqa
+            return ('E', '%s: %s' % (type(ex).__name__, ex))
+        if r is True:
+            return ('T',)
+        if r is False:
+            return ('F',)
+        if isinstance(r, str) and r:
+            return ('R', [ord(c) for c in r])
+        return ('E', 'returned %r' % (r,))
+
     def feed(self, j, code, start, params):
         """the same unicast message sent one byte at a time through the real System.parse, handled
         as simulators.server.ListenHandler._handle does (exceptions are swallowed, booleans are not
@@ -568,3 +587,68 @@ def check_answer(reply, start, idx, npayload):
     if reply[-1] != 255 - sum(reply[:-1]) % 256:
         return 'wrong checksum', None
     return None, reply[head:-1]
+
+
+# ---------------------------------------------------------------------------
+# byte level: messages and garbage for the real System.parse
+
+def checksum_of(bs):
+    return 255 - sum(bs) % 256
+
+
+def uni_frame(start, idx, code, params):
+    body = [start, ((len(params) + 1) << 5) | idx, code] + list(params)
+    return body + [checksum_of(body)]
+
+
+def bcast_frame(start, code, params):
+    body = [start, 0, len(params) + 1, code] + list(params)
+    return body + [checksum_of(body)]
+
+
+NON_HEADER = [b for b in range(256) if b not in (0xFA, 0xFC)]
+
+
+def resync_bytes(rng, n=None):
+    """the resynchronisation sequence of the protocol: >= 10 bytes that cannot start a command"""
+    n = n or rng.choice([10, 10, 10, 11, 12, 16])
+    return [rng.choice(NON_HEADER) if rng.random() < 0.7 else rng.choice([0, 1, 7, 8, 0x1F, 0x20, 0xFB, 0xFD, 255])
+            for _ in range(n)]
+
+
+def garbage_chunk(rng, line):
+    """(tag, bytes): one piece of a byte history - valid traffic or one of the malformed shapes"""
+    idxs = line.idxs
+    start = rng.choice([0xFA, 0xFC])
+    r = rng.random()
+    if r < 0.10:
+        return 'random', [rng.randrange(256) for _ in range(rng.randrange(1, 13))]
+    if r < 0.22:
+        return 'rejected_at_byte_2', [start, rng.randrange(1, 32)]
+    if r < 0.32:
+        return 'rejected_at_byte_3', [start, 0, rng.choice([0, 8, 9, 255, rng.randrange(8, 256)])]
+    j = rng.randrange(len(idxs))
+    e = pick_event(rng, _View(line.units[j]), rng.choice(['config', 'delayed', 'motion', 'garbage']))
+    if e[0] != 'cmd':
+        code, params = rng.choice(CODES), []
+    else:
+        code, params = e[1], e[3]
+    if r < 0.42:
+        f = uni_frame(start, idxs[j], code, params)
+        return 'truncated', f[:rng.randrange(1, len(f))]
+    if r < 0.50:
+        f = uni_frame(start, idxs[j], code, params)
+        f[-1] = (f[-1] + rng.randrange(1, 256)) % 256
+        return 'bad_checksum', f
+    if r < 0.57:
+        return 'unknown_code', uni_frame(start, idxs[j], rng.choice([c for c in range(256) if c not in NPARAMS]),
+                                         [rng.randrange(256) for _ in range(rng.randrange(0, 4))])
+    if r < 0.62:
+        return 'nested_headers', [rng.choice([0xFA, 0xFC]) for _ in range(rng.randrange(2, 5))]
+    if r < 0.68:
+        absent = [i for i in range(32) if i not in idxs]
+        if absent:
+            return 'absent_address', uni_frame(start, rng.choice(absent), code, params)
+    if r < 0.80:
+        return 'broadcast', bcast_frame(start, code, params)
+    return 'unicast', uni_frame(start, idxs[j], code, params)
